@@ -213,6 +213,7 @@ pub fn scenarios(thorough: bool) -> Vec<Scenario> {
     for sc in v.iter_mut() {
         sc.key_opts.heads = true;
     }
+    v.extend(cross_scenarios(thorough));
     v
 }
 
